@@ -114,7 +114,7 @@ CHECKS.update({
          "DESIGN.md §3 C12"),
  "C13": ("model_checking",
          "stateless deviation-bounded exploration (preemptions + 'pool emptied' environment answers, iterated bounds) of concurrent request pairs/triples on the real Mux under the controlled scheduler; differential against each request's solo run; pool-discipline and WaitGroup-contract monitors in the sync shims; separate free-running -race pass",
-         "Pairs (thorough: all pairs + triples) of requests of 17 kinds chosen to collide on bytesPool, bufPool and the gzip pools - among them a bidi call served by a full-duplex handler (two goroutines on one stream) and requests through NewServer's mounts after one the mount turned away - run concurrently on one Mux; scheduling points at every pool Get/Put, WaitGroup op, body Read, response Write and handler step. In every explored schedule each response and each handler-seen message must equal the request's solo run and messages retained by handlers must be unchanged at the end; no panic, no deadlock. The same bodies then run free under the race detector.",
+         "Pairs (thorough: all pairs + triples) of requests of 19 kinds chosen to collide on bytesPool, bufPool and the gzip pools - among them a bidi call served by a full-duplex handler (two goroutines on one stream) requests through NewServer's mounts after one the mount turned away, and requests that share their first Accept line - run concurrently on one Mux; scheduling points at every pool Get/Put, WaitGroup op, body Read, response Write and handler step. In every explored schedule each response and each handler-seen message must equal the request's solo run and messages retained by handlers must be unchanged at the end; no panic, no deadlock. The same bodies then run free under the race detector.",
          "Races inside grpc-go/net/http are outside the scheduler; proxied streams are covered by C10.",
          "DESIGN.md §3 C13"),
 })
